@@ -30,14 +30,18 @@ def make_composer():
     from dst.parties import KProc, FStep
 
     class SComposer(Composer):
-        defaults = {'procs': [], 'steps': []}
+        defaults = {'procs': [], 'steps': [], 'opts': {'ovdef': None}}
 
         def generate_processes(self, config):
             out = {}
+            # a nested configuration entry, given per generate() call: the default of a1
+            ovdef = (config.get('opts') or {}).get('ovdef')
             for sp in config['procs']:
                 params = {'spec': sp, 'name': sp['name']}
                 if sp.get('_schema'):
                     params['_schema'] = copy.deepcopy(sp['_schema'])
+                if ovdef is not None and not sp.get('shared_params') and not sp.get('raw_schema'):
+                    params['_schema'] = union(params.get('_schema') or {}, {'acc': {'a1': {'_default': ovdef}}})
                 if sp.get('shared_params'):
                     # the composer keeps one parameter dictionary per process and hands
                     # it to every process it builds from it (as a config dictionary does)
@@ -134,6 +138,21 @@ def gen_case(seed):
         ov = 'ov_' + sp['name']
         sp['vars'] = list(sp['vars']) + [ov]
         units[tag]['override'] = {sp['name']: {'acc': {ov: {'_default': r.rint(300, 400)}}}}
+    # flow-less (legacy) derivers that read each other, one delivered in the processes
+    # dictionary and one in the steps dictionary: their order is that of the two
+    # dictionaries, whichever entry point builds the engine (own stream)
+    for tag in ('u', 'v', 'w'):
+        rd = Rng(derive(seed, 'derivers', tag))
+        st = units[tag]['steps']
+        if len(st) >= 2 and rd.chance(35):
+            for sp in st:
+                sp['flow'] = None
+            for i, sp in enumerate(st):
+                sp['reads'] = [o['name'] for o in st if o is not sp]
+                sp['where'] = 'processes' if (i % 2 == 0) == rd.chance(50) else 'steps'
+            if len(set(sp['where'] for sp in st)) == 1:
+                st[0]['where'] = 'processes'
+                st[1]['where'] = 'steps'
     # a process whose parameter dictionary (with a `_schema` entry) is shared by every
     # process the composer builds from it (own stream: earlier seeds keep their cases)
     shared_units = []
@@ -195,6 +214,15 @@ def gen_case(seed):
                 pn = units[g['unit']]['procs'][0]['name']
                 hist.append({'op': 'override', 'into': g['out'], 'target': list(g['path']) + [pn],
                              'var': 'a0', 'default': r.rint(700, 800)})
+    # a per-call configuration (a nested entry) for some generate() calls of a composer that
+    # generates more than once (own stream)
+    for tag in ('u', 'v', 'w'):
+        gens = [h for h in hist if h['op'] == 'generate' and h['unit'] == tag]
+        rc = Rng(derive(seed, 'call_cfg', tag))
+        if len(gens) >= 2 and rc.chance(50):
+            for g in gens[:-1]:
+                if rc.chance(60):
+                    g['call_cfg'] = {'opts': {'ovdef': rc.rint(900, 950)}}
     for tag in shared_units:
         gens = [h for h in hist if h['op'] == 'generate' and h['unit'] == tag]
         rs = Rng(derive(seed, 'shared_override', tag))
@@ -281,7 +309,8 @@ def run_history(case):
                         if u.get('override'):
                             cfg['_schema'] = copy.deepcopy(u['override'])
                         composers[h['unit']] = SC(cfg)
-                    comp = composers[h['unit']].generate(path=tuple(h['path']))
+                    comp = composers[h['unit']].generate(
+                        copy.deepcopy(h['call_cfg']) if h.get('call_cfg') else None, path=tuple(h['path']))
                     real[h['out']] = comp
                 elif h['op'] == 'override':
                     ov = {h['target'][-1]: {'acc': {h['var']: {'_default': h['default']}}}}
@@ -497,6 +526,24 @@ def check_generated(case, h, snap):
         if sorted(node.keys()) != want:
             return V('C16', 'C16.generate-at-path', key,
                      'generate(path=%r): %s holds %r under the path, expected %r' % (path, key, sorted(node.keys()), want))
+    if h['op'] == 'generate':
+        # the configuration given to this call - and only to this call - is in force
+        import json as _json
+        want_ov = ((h.get('call_cfg') or {}).get('opts') or {}).get('ovdef')
+        node = snap['processes']
+        for seg in path:
+            node = node[seg]
+        for sp in u['procs']:
+            if sp.get('shared_params') or sp.get('raw_schema'):
+                continue
+            mk = node.get(sp['name'])
+            if not isinstance(mk, str):
+                continue
+            got = ((_json.loads(mk.split('|')[1]).get('acc') or {}).get('a1') or {}).get('_default')
+            if got != want_ov:
+                return V('C16', 'C16.generate-config', 'leaked' if want_ov is None else 'not-applied',
+                         'generate(%r, path=%r): process %s has the a1 default %r, the configuration of this '
+                         'call says %r' % (h.get('call_cfg'), path, sp['name'], got, want_ov))
     return None
 
 
@@ -559,6 +606,37 @@ def run_entry(case, entry, path):
     finally:
         harness.end_run()
     return harness.finish(run)
+
+
+def check_reuse(case):
+    """A composite that an engine was built from, with an initial state given to
+    the engine, is afterwards still the composite it was: an engine built from it
+    (or from its parts, or its store) later does not start from that state."""
+    from vivarium.core.engine import Engine
+    SC = SComposerClass()
+    u = case['units'][case['run_unit']]
+    harness.begin_run(0.0, seed=case.get('seed', 0))
+    REC.active = False
+    try:
+        cfg = {'procs': u['procs'], 'steps': u['steps']}
+        if u.get('override'):
+            cfg['_schema'] = copy.deepcopy(u['override'])
+        comp = SC(cfg).generate()
+        before = copy.deepcopy(comp['state'])
+        given = {'acc': {'a0': 4321}}
+        try:
+            Engine(composite=comp, initial_state=copy.deepcopy(given), emitter={'type': 'null'},
+                   display_info=False, progress_bar=False)
+        except Exception:       # judged by the entry-point differential
+            return []
+        after = comp['state']
+        if after != before:
+            return [V('C16', 'C16.entry-reuse', 'state-written-back',
+                      'Engine(composite=c, initial_state=%r) left c with the state %r (it was %r): a later '
+                      'engine built from c starts from it' % (given, after, before))]
+    finally:
+        harness.end_run()
+    return []
 
 
 def rerooted_rows(run, path):
@@ -733,6 +811,9 @@ def evaluate(case, prop=None):
         vs += check_entries(case, runs)
         vs += check_override(case, runs)
         probes['entry-differential'] = 1
+        if not vs:
+            vs += check_reuse(case)
+            probes['composite-reuse'] = 1
     merges = sum(1 for h in case['history'] if h['op'].startswith('merge'))
     if merges >= 2:
         probes['merge-after-merge'] = 1
